@@ -61,7 +61,10 @@ def run_property(pid: str, tier: str, repo: str):
             merged[k] = inst
     instances = list(merged.values())
     # floors: a rule that matches fewer instances than confirmed by hand passes vacuously -> undecided
+    any_violation = any(i.verdict == 'VIOLATION' for i in instances)
     for rule_id, floor in spec.floors.items():
+        if any_violation:
+            break          # the run already fails with a concrete construct; floors guard vacuous passes only
         n = sum(1 for i in instances if i.rule == rule_id)
         if n < floor:
             raise AnalysisError(f'rule {rule_id} matched {n} instance(s), fewer than the {floor} confirmed by hand: '
@@ -160,6 +163,7 @@ def main(argv=None) -> int:
     ap.add_argument('--tier', default=os.environ.get('VERIF_TIER', 'quick'), choices=['quick', 'thorough'])
     ap.add_argument('--repo', default=DEFAULT_REPO)
     ap.add_argument('--replay')
+    ap.add_argument('--no-evidence', action='store_true', help='do not write evidence / replay files (self-test, seeded changes)')
     ap.add_argument('--verbose', '-v', action='store_true')
     args = ap.parse_args(argv)
 
@@ -200,7 +204,11 @@ def main(argv=None) -> int:
 
     known = known_index(load_known())
     viol_dir = os.path.join(EVIDENCE_DIR, f'{pid}.violations')
-    shutil.rmtree(viol_dir, ignore_errors=True)
+    if args.no_evidence:
+        import tempfile
+        viol_dir = tempfile.mkdtemp(prefix='sa_viol_')
+    else:
+        shutil.rmtree(viol_dir, ignore_errors=True)
     new_viol, known_hits = [], []
     for inst in instances:
         if inst.verdict != 'VIOLATION':
@@ -225,7 +233,10 @@ def main(argv=None) -> int:
         for line in inst.path:
             print(f'    {line}')
     wall = time.time() - t0
-    write_evidence(pid, args.tier, ctx, out, instances, new_viol, known_hits, wall)
+    if args.no_evidence:
+        shutil.rmtree(viol_dir, ignore_errors=True)
+    else:
+        write_evidence(pid, args.tier, ctx, out, instances, new_viol, known_hits, wall)
     n_pass = sum(1 for i in instances if i.verdict == 'PASS')
     print(f'{pid} [{args.tier}] {len(instances)} rule instances: {n_pass} hold, {len(known_hits)} known findings, '
           f'{len(new_viol)} new violations ({wall:.2f}s)')
